@@ -215,6 +215,41 @@ func highcmd(w []string) bool {
 					return
 				}
 			}
+			// one destination variable used for every row (the usual loop): each value obtained must stay
+			// what it was when later rows are scanned into the same variable, whatever its capacity
+			var reused []byte
+			var got [][]byte
+			err = hd.Select(w[1], func(r sqlittle.Row) {
+				if err := r.Scan(&reused); err != nil {
+					panic(err)
+				}
+				got = append(got, reused)
+			}, w[2])
+			if err != nil {
+				fmt.Fprintf(out, "scanmut err %v\n", err)
+				return
+			}
+			for i := range got {
+				if string(got[i]) != string(keep[i]) {
+					fmt.Fprintf(out, "scanmut row %d: scanning a later row into the same variable changed the value obtained earlier (len %d)\n", i, len(keep[i]))
+					return
+				}
+			}
+			// ... also when the variable starts out with spare capacity
+			reused = make([]byte, 0, 1<<16)
+			got = nil
+			err = hd.Select(w[1], func(r sqlittle.Row) {
+				if err := r.Scan(&reused); err != nil {
+					panic(err)
+				}
+				got = append(got, reused)
+			}, w[2])
+			for i := range got {
+				if err != nil || string(got[i]) != string(keep[i]) {
+					fmt.Fprintf(out, "scanmut row %d: scanning a later row into the same (roomy) variable changed the value obtained earlier (len %d)\n", i, len(keep[i]))
+					return
+				}
+			}
 			db.Close()
 			for i := range second {
 				if string(second[i]) != string(keep[i]) || firstS[i] != string(keep[i]) {
@@ -580,6 +615,33 @@ func second(l string) {
 	case l == "nest" && db != nil:
 		// a nested call on the SAME handle from inside its own callback
 		_, err := sqlittle.VerifWrap(db).Columns("t")
+		fmt.Fprintf(out, "f2 nest %v\n", err == nil)
+	case strings.HasPrefix(l, "nest ") && db != nil:
+		// ... through any entry point: nest select|selectrowid|iselect|iselecteq|pkselect|columns
+		hd := sqlittle.VerifWrap(db)
+		cb := func(sqlittle.Row) {}
+		var err error
+		func() {
+			defer func() {
+				if r := recover(); r != nil {
+					err = fmt.Errorf("panic: %v", r)
+				}
+			}()
+			switch strings.TrimPrefix(l, "nest ") {
+			case "select":
+				err = hd.Select("t", cb, "a")
+			case "selectrowid":
+				_, err = hd.SelectRowid("t", 1, "a")
+			case "iselect":
+				err = hd.IndexedSelect("t", "t_a", cb, "a")
+			case "iselecteq":
+				err = hd.IndexedSelectEq("t", "t_a", sqlittle.Key{int64(3)}, cb, "a")
+			case "pkselect":
+				err = hd.PKSelect("t", sqlittle.Key{int64(1)}, cb, "a")
+			default:
+				_, err = hd.Columns("t")
+			}
+		}()
 		fmt.Fprintf(out, "f2 nest %v\n", err == nil)
 	case strings.HasPrefix(l, "#"):
 		fmt.Fprintln(out, l)
